@@ -8,7 +8,8 @@ RULE = ('case = (instance recipe of a stdlib type with a bundled printer: dateti
         'timedelta (0, +-1us, min, max, 365d multiples, random), timezone, OrderedDict, defaultdict, deque, Counter, '
         'ChainMap, mappingproxy, UUID, Enum/Flag members, SimpleNamespace, namedtuples (0..n fields, renamed, typing), '
         'struct_time, partial/partialmethod, exceptions, pure paths; payloads are built-in value trees) x placement in '
-        '{top, list element, dict value, dict key, inside OrderedDict/deque, five levels deep} x (width, ribbon, indent). '
+        '{top, list element, dict value, dict key, inside OrderedDict/deque, five levels deep, the same object at two positions, '
+        'two equal instances built separately, key and value of one dict} x (width, ribbon, indent). '
         'Oracle: no "raised an exception" fallback warning; eval with the module in scope gives an object of the same '
         'type that is equal (== plus observable state: fold, utcoffset, maxlen, default_factory, item order, partial '
         'func/args/keywords, exception args). non-trivial = instance is nested >= 1 level or not the empty/default '
@@ -17,7 +18,7 @@ ASSUMPTIONS = ['equality of reconstructed objects: Python == extended by observa
                'tzinfo objects are compared by the utcoffset/dst/tzname they give a probe datetime (pytz classes compare by identity)']
 BUDGET = {'quick': {'random': 12000, 'shards': 16}, 'thorough': {'random': 400000, 'shards': 16}}
 
-PLACES = ['top', 'list', 'dictval', 'dictkey', 'odict', 'deque', 'deep']
+PLACES = ['top', 'list', 'dictval', 'dictkey', 'odict', 'deque', 'deep', 'twice', 'rebuilt-pair', 'keyval']
 
 
 def placed(v, where):
@@ -36,6 +37,11 @@ def placed(v, where):
         return collections.deque([v], maxlen=3)
     if where == 'deep':
         return [({'a': [[v]]},)]
+    if where == 'twice':
+        return [v, (v, 1)]           # the same object at two positions of one print
+    if where == 'keyval':
+        return {v: [v]}
+    raise ValueError(where)
 
 
 def unplace(obj, where):
@@ -53,6 +59,10 @@ def unplace(obj, where):
         return obj[0]
     if where == 'deep':
         return obj[0][0]['a'][0][0]
+    if where == 'twice':
+        return obj[1][0]
+    if where == 'keyval':
+        return obj[next(iter(obj))][0]
 
 
 def fixed_cases():
@@ -108,12 +118,17 @@ def oracle(case):
     r = case['v']
     where = case['place']
     v = values.build(r)
-    if where == 'dictkey':
+    if where in ('dictkey', 'keyval'):
         try:
             hash(v)
         except TypeError:
-            where = 'dictval'
-    obj = placed(v, where)
+            where = 'dictval' if where == 'dictkey' else 'twice'
+    if where == 'rebuilt-pair':
+        # two separately built equal instances: they share whatever their constructors cache (pytz zones, enum members)
+        obj = [values.build(r), {'k': v}]
+        where = 'rebuilt-pair'
+    else:
+        obj = placed(v, where)
     p = values.pp(obj, **case['cfg'])
     labels = [r[1], 'at:' + where]
     if p.exc is not None:
@@ -126,7 +141,11 @@ def oracle(case):
     except Exception as e:
         return core.viol('not-evaluable', '%r\n%s' % (e, p.text[:600]), labels)
     try:
-        got = unplace(back, where)
+        got = back[1]['k'] if where == 'rebuilt-pair' else unplace(back, where)
+        if where == 'rebuilt-pair' and stdvals.std_equal(v, back[0], eqv.same):
+            return core.viol('not-equal', 'first of two equal instances: %s\n%s' % (stdvals.std_equal(v, back[0], eqv.same), p.text[:600]), labels)
+        if where == 'twice' and stdvals.std_equal(v, back[0], eqv.same):
+            return core.viol('not-equal', 'first occurrence: %s\n%s' % (stdvals.std_equal(v, back[0], eqv.same), p.text[:600]), labels)
     except Exception as e:
         return core.viol('wrong-shape', '%r\n%s' % (e, p.text[:600]), labels)
     why = stdvals.std_equal(v, got, eqv.same)
